@@ -4,7 +4,11 @@ Decides (from the syntax trees of hailtop/batch/{backend,job,resource,batch}.py;
   R1  writer location == reader location in ServiceBackend._async_run: the pair returned by copy_internal_output is
       (local, remote) and the job-resource pair of copy_input is the same two expressions swapped; copy_external_output reads the
       same local expression; a locally staged input is uploaded to the very `dest` it is later downloaded from; the environment
-      variable the commands are written against (BATCH_TMPDIR) is the directory of the local side; `_compile` receives
+      variable the commands are written against (BATCH_TMPDIR) is the directory of the local side AND is the binding that wins in the
+      mapping handed to create_job: the construction of `env=` is followed as an ordered list of entries (dict display with ** parts,
+      dict(), `|`, update / setdefault / subscript stores / `if K not in d` on a local of the job loop, expression helpers inlined,
+      statement helpers analysed with their parameters substituted) and no mapping the user controls (job._env, which Job.env fills
+      with any name) may be merged after the BATCH_TMPDIR entry, nor may that entry be a mere default; `_compile` receives
       (local, remote) in parameter order; every concrete `_get_path(directory)` is `directory + <suffix not mentioning directory>`
       so that `_get_path(d) == d + _get_path('')`
   R2  create_job: parents derive from `job._dependencies` through `_client_job` (written after create_job of the parent),
@@ -286,19 +290,7 @@ def _service(ctx: Ctx) -> None:
               f'({[pf.nsrc(x) for x in marks]}): children cannot name it as a parent', m.path, cj.lineno)
 
     # env / BATCH_TMPDIR and _compile argument order
-    ev = kw.get('env')
-    ctx.need(ev is not None, f'{where}: create_job has no env=')
-    if isinstance(ev, ast.Name):
-        d = defs_of(ev.id)
-        ctx.need(len(d) == 1 and isinstance(d[0], ast.Assign), f'{where}: env has several definitions')
-        ev = d[0].value  # type: ignore[attr-defined]
-    ctx.need(isinstance(ev, ast.Dict), f'{where}: env is not a dict display')
-    tmp = [v for k, v in zip(ev.keys, ev.values) if k is not None and pf.const_str(k) == 'BATCH_TMPDIR']  # type: ignore[union-attr]
-    last_key = ev.keys[-1]  # type: ignore[union-attr]
-    ctx.check(len(tmp) == 1 and isinstance(tmp[0], ast.Name) and tmp[0].id == local and last_key is not None and pf.const_str(last_key) == 'BATCH_TMPDIR', 'R1',
-              f'{where}::BATCH_TMPDIR == local directory',
-              f"env is `{pf.nsrc(ev)}`: commands refer to '${{BATCH_TMPDIR}}' + r._get_path('') but files are downloaded to r._get_path({local}); "
-              f'BATCH_TMPDIR must be `{local}` and must not be overridable by job._env', m.path, cj.lineno)
+    _tmpdir_env(ctx, m, fn, where, defs, loop, jv, cj, kw, local)
     comp = [c for c in pf.calls_in(fn, into_nested_defs=True) if isinstance(c.func, ast.Attribute) and c.func.attr == '_compile']
     ctx.need(len(comp) == 1, f'{where}: expected one _compile call')
     mj = pf.load(FJ)
@@ -313,6 +305,187 @@ def _service(ctx: Ctx) -> None:
               f'`{pf.nsrc(comp[0])}` passes {got} for parameters {sigs[0]}: code and argument files are written under one directory and read from the other',
               m.path, comp[0].lineno)
     ctx.unit('functions', 5)
+
+
+TMPVAR = 'BATCH_TMPDIR'
+
+
+def _preceding_in_loop(loop: ast.AST, stmt: ast.stmt) -> Optional[List[ast.stmt]]:
+    """The statements of one loop iteration that are executed before `stmt` whenever `stmt` is reached: its earlier siblings and the earlier
+    siblings of every compound statement around it, outermost first.  None if stmt is not inside the loop."""
+    par: Dict[ast.AST, Tuple[ast.AST, List[ast.stmt]]] = {}
+    for p in ast.walk(loop):
+        for fld in ('body', 'orelse', 'finalbody'):
+            blk = getattr(p, fld, None)
+            if isinstance(blk, list):
+                for c in blk:
+                    if isinstance(c, ast.stmt):
+                        par[c] = (p, blk)
+        for h in getattr(p, 'handlers', []) or []:
+            for c in h.body:
+                par[c] = (p, h.body)
+    out: List[List[ast.stmt]] = []
+    cur: ast.AST = stmt
+    while cur is not loop:
+        if cur not in par:
+            return None
+        p, blk = par[cur]
+        i = [k for k, x in enumerate(blk) if x is cur][0]
+        out.append(blk[:i])
+        cur = p
+    return [st for blk in reversed(out) for st in blk]
+
+
+def _bind_call(f: ast.FunctionDef, call: ast.Call, drop_first: bool) -> Optional[Dict[str, ast.expr]]:
+    a = f.args
+    if a.vararg or a.kwarg or a.posonlyargs or any(isinstance(x, ast.Starred) for x in call.args) or any(k.arg is None for k in call.keywords):
+        return None
+    pos = [x.arg for x in a.args][1 if drop_first else 0:]
+    names = pos + [x.arg for x in a.kwonlyargs]
+    if len(call.args) > len(pos):
+        return None
+    bound: Dict[str, ast.expr] = dict(zip(pos, call.args))
+    for k in call.keywords:
+        if k.arg in bound or k.arg not in names:
+            return None
+        bound[k.arg] = k.value  # type: ignore[index]
+    for p_, d in list(zip(pos[len(pos) - len(a.defaults):], a.defaults)) + [(x.arg, d) for x, d in zip(a.kwonlyargs, a.kw_defaults) if d is not None]:
+        bound.setdefault(p_, d)
+    return bound if all(n in bound for n in names) else None
+
+
+def _subst(e: ast.AST, bound: Dict[str, ast.expr]) -> ast.AST:
+    import copy
+
+    class _S(ast.NodeTransformer):
+        def visit_Name(self, n: ast.Name):
+            if isinstance(n.ctx, ast.Load) and n.id in bound:
+                return copy.deepcopy(bound[n.id])
+            return n
+
+        def visit_Lambda(self, n):
+            return n
+    return _S().visit(copy.deepcopy(e))
+
+
+def _tmpdir_env(ctx: Ctx, m: pf.Module, fn: pf.FuncDef, where: str, nested: Dict[str, pf.FuncDef], loop: ast.For, jv: str, cj: ast.Call,
+                kw: Dict[str, ast.expr], local: str) -> None:
+    """R1: the commands are written against '${BATCH_TMPDIR}' + <relative path> (Job._interpolate_command) while input_files / output_files use
+    r._get_path(<local>): the two agree only if the environment handed to create_job binds BATCH_TMPDIR to <local> and nothing the user controls
+    (job._env, filled by Job.env with any variable name) is merged on top of that binding.  The construction of the mapping is followed through
+    dict displays, dict(), `|`, update / setdefault / subscript stores on a local of the job loop, and helper functions (expression helpers are
+    inlined, statement helpers are analysed as a block with their parameters substituted)."""
+    cons = f'{where}::BATCH_TMPDIR == local directory'
+    ev = kw.get('env')
+    ctx.need(ev is not None, f'{where}: create_job has no env=')
+    cj_stmt = [st for st in _stmts(loop) if any(x is cj for x in ast.walk(st)) and not isinstance(st, (ast.For, ast.AsyncFor, ast.While, ast.If, ast.With, ast.AsyncWith, ast.Try))]
+    ctx.need(len(cj_stmt) == 1, f'{where}: statement of the create_job call not found')
+    before = _preceding_in_loop(loop, cj_stmt[0])
+    ctx.need(before is not None, f'{where}: create_job statement not located in the job loop')
+    mod_funcs = {st.name: st for st in m.tree.body if isinstance(st, ast.FunctionDef)}
+    cls_funcs = {st.name: st for st in m.cls('ServiceBackend').body if isinstance(st, ast.FunctionDef)}
+    plain_nested = {k: v for k, v in nested.items() if isinstance(v, ast.FunctionDef)}
+
+    def inline(e: ast.AST) -> ast.AST:
+        return facts.inline_expr_calls(m, e, cls='ServiceBackend', extra=plain_nested)
+
+    def helper_of(c: ast.AST) -> Optional[Tuple[ast.FunctionDef, bool]]:
+        if not isinstance(c, ast.Call):
+            return None
+        if isinstance(c.func, ast.Name) and c.func.id in {**mod_funcs, **plain_nested}:
+            return {**mod_funcs, **plain_nested}[c.func.id], False
+        if isinstance(c.func, ast.Attribute) and isinstance(c.func.value, ast.Name) and c.func.value.id in ('self', 'ServiceBackend') and c.func.attr in cls_funcs:
+            f = cls_funcs[c.func.attr]
+            decs = pf.decorator_names(f)
+            if all(d in ('staticmethod',) for d in decs):
+                return f, 'staticmethod' not in decs
+        return None
+
+    def entries_of_expr(e: ast.AST, depth: int = 0) -> List[facts.Entry]:
+        """Entries of a mapping expression; opaque parts that are calls of statement helpers defined in this file are opened."""
+        out: List[facts.Entry] = []
+        for ent in facts.dict_entries(inline(e)):
+            h = helper_of(ent[1]) if ent[0] == 'spread' else None  # type: ignore[arg-type]
+            if h is None or depth >= 3:
+                out.append(ent)
+                continue
+            f, drop = h
+            call: ast.Call = ent[1]  # type: ignore[assignment]
+            hw = f'{FK}::{f.name}'
+            bound = _bind_call(f, call, drop)
+            ctx.need(bound is not None, f'{hw}: arguments of `{pf.nsrc(call)}` do not bind')
+            body = [st for st in f.body if not (isinstance(st, ast.Expr) and isinstance(st.value, ast.Constant))]
+            rets = [st for st in pf.walk_shallow(f) if isinstance(st, ast.Return)]
+            ctx.need(len(rets) == 1 and body and body[-1] is rets[0] and rets[0].value is not None, f'{hw}: expected a single `return` at the end of the environment helper')
+            stores = {x.id for x in pf.walk_shallow(f) if isinstance(x, ast.Name) and isinstance(x.ctx, ast.Store)}
+            ctx.need(not (stores & set(bound)), f'{hw}: a parameter is re-assigned')  # type: ignore[arg-type]
+            rv = rets[0].value
+            if isinstance(rv, ast.Name) and rv.id in stores:
+                sub = facts.dict_var_entries(body[:-1], rv.id, TMPVAR)
+                ctx.need(sub is not None, f'{hw}: `{rv.id}` is not built in the helper')
+            else:
+                ctx.need(len(body) == 1 or not any(isinstance(x, ast.Name) and x.id in stores for x in ast.walk(rv)), f'{hw}: returned expression uses helper locals (not analysed)')
+                sub = facts.dict_entries(rv)
+            for kind, k, v in sub:  # type: ignore[union-attr]
+                k2 = _subst(k, bound) if isinstance(k, ast.AST) else k  # type: ignore[arg-type]
+                v2 = _subst(v, bound) if v is not None else None  # type: ignore[arg-type]
+                if kind == 'spread':
+                    out += entries_of_expr(k2, depth + 1)  # type: ignore[arg-type]
+                else:
+                    out.append((kind, k2, v2))
+        return out
+
+    try:
+        if isinstance(ev, ast.Name):
+            name = ev.id
+            ctx.need(name not in {a.arg for a in fn.args.args + fn.args.kwonlyargs}, f'{where}: env=`{name}` is a parameter')
+            raw = facts.dict_var_entries(before, name, TMPVAR)  # type: ignore[arg-type]
+            ctx.need(raw is not None, f'{where}: env=`{name}` is not built inside the job loop before create_job')
+            entries: List[facts.Entry] = []
+            for ent in raw:  # type: ignore[union-attr]
+                entries += entries_of_expr(ent[1]) if ent[0] == 'spread' else [ent]  # type: ignore[arg-type]
+        else:
+            entries = entries_of_expr(ev)
+    except facts.DictShapeError as ex:
+        raise AnalysisError(f'{where}: construction of env= not recognised: {ex}') from ex
+
+    def spread_kind(e: ast.AST) -> str:
+        e = facts.expand_locals_except(fn, e, stop={jv}, depth=2)
+        if any(isinstance(x, ast.Attribute) and x.attr == '_env' and isinstance(x.value, ast.Name) and x.value.id == jv for x in ast.walk(e)):
+            return 'may'
+        return 'unknown'
+
+    try:
+        verdict, value, over = facts.final_binding(entries, TMPVAR, spread_kind)
+    except facts.DictShapeError as ex:
+        raise AnalysisError(f'{where}: construction of env= not recognised: {ex}') from ex
+    shown = '{' + ', '.join(f'**{pf.nsrc(k)}' if kind == 'spread' else f'{k!r}: {pf.nsrc(v)}' if kind == 'key' else f'setdefault({k!r}, {pf.nsrc(v)})' if kind == 'default'  # type: ignore[arg-type]
+                             else f'{pf.nsrc(k)}: {pf.nsrc(v)}' for kind, k, v in entries) + '}'  # type: ignore[arg-type]
+    base = (f"commands refer to '${{{TMPVAR}}}' + r._get_path('') (Job._interpolate_command) but files are downloaded to / uploaded from r._get_path({local})")
+    if verdict == 'overridable':
+        # the user-controlled mapping really can contain the variable: Job.env stores any name
+        mj = pf.load(FJ)
+        je = mj.func('Job.env')
+        stores_any = [st for st in af_body(je) if isinstance(st, ast.Assign) and len(st.targets) == 1 and isinstance(st.targets[0], ast.Subscript)
+                      and _is_attr(st.targets[0].value, 'self', '_env') and isinstance(st.targets[0].slice, ast.Name) and st.targets[0].slice.id == je.args.args[1].arg]
+        guarded = any(isinstance(x, (ast.If, ast.Assert, ast.Raise, ast.Try)) for x in pf.walk_shallow(je))
+        ctx.need(bool(stores_any) and not guarded, f'{FJ}::Job.env: does not store an arbitrary variable name unconditionally (reserved names may be rejected there; not analysed)')
+        ctx.bad('R1', cons, f"env is built as {shown}: `{pf.nsrc(over)}` is merged AFTER the {TMPVAR!r} binding (or the binding only fills a gap), so a job that has {TMPVAR} in its "  # type: ignore[arg-type]
+                f"`_env` keeps its own value; {base}. History: a driver that itself runs in a Batch job forwards its environment (`for k, v in os.environ.items(): j.env(k, v)`, the "
+                f"driver's container has {TMPVAR}=/io/batch/<driver uid>); producer `echo hi > ${{{TMPVAR}}}/<dir>/out` then writes under the driver's directory while the worker uploads "
+                f"from {local}/<dir>/out, and the consumer reads a path the input was never downloaded to. {TMPVAR} must be `{local}` and must not be overridable by job._env",
+                m.path, cj.lineno)
+        return
+    if value is not None and not (isinstance(value, ast.Name) and value.id == local):
+        value = facts.expand_locals_except(fn, value, stop={local, jv}, depth=2)   # a local alias of the directory
+    ok = verdict == 'fixed' and isinstance(value, ast.Name) and value.id == local
+    ctx.check(ok, 'R1', cons,
+              f"env is built as {shown}: " + (f'{TMPVAR} is never bound' if verdict == 'missing' else f'{TMPVAR} is bound to `{pf.nsrc(value)}`') +  # type: ignore[arg-type]
+              f"; {base}; {TMPVAR} must be `{local}` and must not be overridable by job._env", m.path, cj.lineno, detail={'entries': shown})
+
+
+def af_body(f: pf.FuncDef) -> List[ast.stmt]:
+    return [st for st in f.body if not (isinstance(st, ast.Expr) and isinstance(st.value, ast.Constant))]
 
 
 BATCH_DIR = 'hail/python/hailtop/batch'
@@ -869,7 +1042,8 @@ def run(ctx: Ctx) -> None:
     ctx.explanation = ('Writer/reader path expressions of ServiceBackend._async_run compared after normalisation, create_job arguments followed through def-use, '
                        'recording effects checked as must-pass-through on the CFG of both recording sites, structural checks of uid/token allocators; nothing is run.')
     ctx.rule('R1', 'upload location == download location (remote and local side), external outputs and staged inputs use the same expressions, BATCH_TMPDIR is the '
-                   'local directory, _compile gets (local, remote), every _get_path(directory) is directory + suffix', 12)
+                   'local directory and the last word in the env mapping (job._env cannot override it; the mapping is followed through displays, dict(), |, update/setdefault and helpers), '
+                   '_compile gets (local, remote), every _get_path(directory) is directory + suffix', 12)
     ctx.rule('R2', 'create_job: parents from _dependencies via _client_job, input_files from _inputs, output_files from _internal_outputs + _external_outputs; '
                    'both recording sites record foreign resources as inputs / producer internal outputs; parents iterate the full _dependencies and no statement '
                    'of hailtop/batch removes an element from any _dependencies set', 19)
